@@ -260,6 +260,20 @@ def run_case(case):
                 rec["complete"] = 1 if ds.is_complete else 0
                 if any(0 in b for r in rec["D"] for b in r):
                     raise ValueError("projection")
+            elif reuse["kind"] == "flagflip":
+                # the same object, dataset and scheme, first asked with the OTHER value of return_at_most_one_ranking
+                try:
+                    c0 = alg.compute_consensus_rankings(ds, ss, not bool(case["flag"]))
+                    _ = c0.kemeny_score
+                except Exception:
+                    pass
+            elif reuse["kind"] == "prealg":
+                # another algorithm (e.g. the exact one) runs first on the same dataset and scheme objects
+                try:
+                    c0 = build(reuse["cfg0"], [], [], 0).compute_consensus_rankings(ds, ss, True)
+                    _ = c0.kemeny_score
+                except Exception:
+                    pass
             elif reuse["kind"] == "scheme":
                 B0, T0, u0 = reuse["sch0"]
                 ss0 = SS(core.scheme_float(B0, T0, u0))
